@@ -107,7 +107,8 @@ type Expr struct {
 	L     *Expr           `json:"l,omitempty"`
 	R     *Expr           `json:"r,omitempty"`
 	A     *Expr           `json:"a,omitempty"`
-	V     json.RawMessage `json:"v,omitempty"`
+	V     json.RawMessage `json:"v,omitempty"` // numeral of a num
+	S     []string        `json:"s,omitempty"` // characters of a lit
 	Pre   string          `json:"pre,omitempty"`
 	Lo    []string        `json:"lo,omitempty"`
 	Args  []Expr          `json:"args,omitempty"`
@@ -187,9 +188,7 @@ func (r *renderer) expr(e *Expr) {
 		}
 		r.t(s)
 	case "lit":
-		var cs []string
-		json.Unmarshal(e.V, &cs)
-		s := str(cs)
+		s := str(e.S)
 		switch {
 		case !strings.Contains(s, "'"):
 			r.t("'" + s + "'")
